@@ -3,13 +3,12 @@
    Proofs: FlattenProofs.v, FlattenOwn.v.  Every theorem below is closed under the global context.
 
    What is NOT proved (see the comments marked NOT PROVED and design_notes/C06.md):
-     - termination of the flattening loop on acyclic import graphs (flatten_terminates);
-     - that Component::clone yields a structurally identical tree (hypothesis "a variable is located at the same relative
-       stack" of the apply theorems);
+     - termination of the flattening loop: the unconditional claim is refuted (C06_flatten_terminates_refuted), the
+       conditional one is not proved;
      - preservation of the meaning of units that reference other non-standard units: the claim is FALSE for the code
        (C06_units_meaning_refuted) and no sufficient condition beyond first-level units was proved. *)
 From Coq Require Import List String QArith Bool Arith.
-From LC Require Import Common NumDefs UnitsDefs FlattenDefs FlattenProofs FlattenOwn.
+From LC Require Import Common NumDefs UnitsDefs FlattenDefs FlattenProofs FlattenOwn FlattenShape FlattenTerm FlattenUnits.
 Import ListNotations.
 Local Open Scope string_scope.
 Local Open Scope nat_scope.
@@ -143,9 +142,55 @@ Theorem C06_apply_generate_recreates : forall (L : model) (icomp : comp) (origin
 Proof. exact FlattenProofs.apply_generate_recreates. Qed.
 Print Assumptions C06_apply_generate_recreates.
 
-(* NOT PROVED: that the copy made by Component::clone has, at every relative stack, the clone of the variable the imported
-   component has there (it is what clone_comp computes; C11 proved the counterpart for CloneDefs.v), and that indexStackOf
-   returns the stack at which a variable sits when identity tags are unique. *)
+(* The two hypotheses of the theorem above, discharged for the model's own functions (FlattenShape.v). *)
+
+(* indexStackOf returns the stack at which a variable sits (identity tags of the model pairwise distinct) *)
+Theorem C06_index_stack_of_position : forall m p v, NoDup (oids_of (model_vars m)) ->
+  In (p, v) (model_vars m) -> index_stack_of m (v_oid v) = Some p.
+Proof. exact FlattenShape.index_stack_of_position. Qed.
+Print Assumptions C06_index_stack_of_position.
+
+(* getVariableLocatedAt finds the variable the enumeration lists at a stack *)
+Theorem C06_located_enumerated : forall cs p v, In (p, v) (comps_vars_at [] 0 cs) -> var_located_at cs p = LVar v.
+Proof. exact FlattenShape.located_enumerated. Qed.
+Print Assumptions C06_located_enumerated.
+
+(* Component::clone: the copy has a variable at every index stack at which the original has one; its variables carry the
+   tags n .. n' - 1, pairwise distinct *)
+Theorem C06_clone_comp_shape : forall o c n,
+  n <= snd (clone_comp o c n) /\ clone_shape c (fst (clone_comp o c n)) n (snd (clone_comp o c n)).
+Proof. exact FlattenShape.clone_comp_shape. Qed.
+Print Assumptions C06_clone_comp_shape.
+
+(* setName and the de-clash loop keep that shape (names play no role in index stacks) *)
+Theorem C06_declash_keeps_shape : forall fx N ck pk ck' pk' done, declash fx N ck pk = FOk (ck', pk', done) ->
+  forall j, comps_vars_at [] j ck' = comps_vars_at [] j ck /\ comps_vars_at [] j pk' = comps_vars_at [] j pk.
+Proof. exact FlattenShape.declash_vars. Qed.
+Print Assumptions C06_declash_keeps_shape.
+
+(* apply_generate for the model, no hypothesis on locations left: L the library model, icomp the imported component at
+   stack origin, copy a component of icomp's shape at stack dest of the forest cs.  Every equivalence of L between two
+   variables of icomp's encapsulation tree is, after record / rebase / apply, an equivalence between the copy's variables
+   at the same relative stacks. *)
+Theorem C06_apply_generate_model : forall (L : model) (icomp copy : comp) (origin dest : path) (cs : list comp) lo hi eqs eqs',
+  NoDup (oids_of (model_vars L)) ->
+  comp_at (m_comps L) origin = Some icomp ->
+  dest <> [] -> comp_at cs dest = Some copy -> clone_shape icomp copy lo hi ->
+  apply_map cs (rebase_map (record_comp L origin icomp []) origin dest) eqs = FOk eqs' ->
+  forall q1 v q2 w,
+    In (q1, v) (comp_vars_at [] icomp) -> In (q2, w) (comp_vars_at [] icomp) ->
+    has_pair (m_eqs L) (v_oid v) (v_oid w) -> v_oid v <> v_oid w ->
+    exists v' w', In (q1, v') (comp_vars_at [] copy) /\ In (q2, w') (comp_vars_at [] copy) /\ has_pair eqs' (v_oid v') (v_oid w').
+Proof. exact FlattenShape.apply_generate_model. Qed.
+Print Assumptions C06_apply_generate_model.
+
+Theorem C06_comp_at_update_at : forall p cs c f, comp_at cs p = Some c -> comp_at (update_at cs p f) p = Some (f c).
+Proof. exact FlattenShape.comp_at_update_at. Qed.
+Print Assumptions C06_comp_at_update_at.
+
+(* NOT PROVED: the last assembly step inside flatten_component for a copy that is itself an import placeholder and receives
+   extra placeholder variables (76af934): that appending variables with new tags keeps clone_shape.  For every other copy
+   the shape follows from C06_clone_comp_shape, clone_shape_set_name, clone_shape_set_kids and C06_declash_keeps_shape. *)
 
 (* ------------------------------------------------------------------------------------------------ declash_unique *)
 
@@ -255,6 +300,37 @@ Theorem C06_units_meaning_refuted :
 Proof. exact FlattenProofs.units_meaning_refuted. Qed.
 Print Assumptions C06_units_meaning_refuted.
 
+(* units that reference other units: a sufficient "no name capture" condition.  closure_iso w R: R relates units whose unit
+   children are pairwise related (same prefix, exponent, multiplier; standard references equal; other references related),
+   and relates units without children only when they have the same name (libcellml identifies such base units by name).
+   If the closure of the name the usages carry (in the target T') is such an isomorphic image of the closure of the original
+   (in its own model) -- every reference resolves to the copy of what the original's reference resolves to, nothing is
+   captured by another units of T' -- and the original is equivalent to itself, the usages denote equivalent units. *)
+Theorem C06_units_meaning_no_capture : forall libs T' home usage q R,
+  closure_iso (mk_world [T'; home] libs) R -> R (1, q) (0, usage) ->
+  units_equivalent libs [T'; home] 1 q 1 q = FOk true ->
+  units_equivalent libs [T'; home] 0 usage 1 q = FOk true.
+Proof. exact FlattenUnits.units_meaning_no_capture_model. Qed.
+Print Assumptions C06_units_meaning_no_capture.
+
+(* in any world Units::equivalent cannot tell two units with isomorphic closures apart *)
+Theorem C06_units_iso_equivalent : forall w R, closure_iso w R -> forall fx f a b x, R a b ->
+  equivalent fx f w x (Some a) = equivalent fx f w x (Some b).
+Proof. exact FlattenUnits.iso_equivalent. Qed.
+Print Assumptions C06_units_iso_equivalent.
+
+Example C06_units_meaning_no_capture_nonvacuous :
+  closure_iso (mk_world [nv_target; nv_home] []) nv_R /\ nv_R (1, "a") (0, "a_1") /\
+  units_equivalent [] [nv_target; nv_home] 0 "a_1" 1 "a" = FOk true.
+Proof. exact FlattenUnits.units_meaning_no_capture_nonvacuous. Qed.
+Print Assumptions C06_units_meaning_no_capture_nonvacuous.
+
+(* NOT PROVED: a condition on the INPUT of transferUnitsRenamingIfRequired (source model, target model, units) that implies
+   the isomorphism for its output.  The recursion re-uses a dependency whenever the target has an EQUIVALENT units; the copy
+   then refers to a units that is equivalent but not isomorphic to the original's dependency, and the step from "children
+   equivalent" to "parents equivalent" is the algebra of Units::equivalent (additivity of exponent maps and log-multipliers
+   over children), which C08 proved only through its dimension specification, not as a congruence of `equivalent`. *)
+
 (* ------------------------------------------------------------------------------------------------ flatten_no_imports *)
 
 (* whenever the model of flattenModel returns, no units and no component (at any depth) of the result is an import *)
@@ -281,9 +357,20 @@ Print Assumptions C06_flatten_leaves_inputs_nonvacuous.
 
 (* ------------------------------------------------------------------------------------------------ flatten_terminates *)
 
-(* NOT PROVED: flatten_terminates -- "on an acyclic import graph, rounds = number of import levels and fuel = number of
-   import nodes reachable suffice: flatten_model does not return FFuel".  What there is:
-     - C06_flatten_no_imports: a returned model is import-free (fuel exhaustion is a separate outcome, FFuel, never a model);
-     - the correspondence run: on every generated acyclic graph the model returns with rounds <= 40, fuel <= 400 whenever
-       the library returns, and answers FFuel exactly where the library recurses without end (units cycles closed by the
-       renaming, finding C06-units-name-capture). *)
+(* flatten_terminates as stated -- "on an acyclic import graph the model returns for enough fuel" -- is FALSE: the renaming of
+   an imported units can close a units cycle (C06-units-name-capture), and then no amount of fuel helps.  The witness is an
+   acyclic import graph (file rank decreasing along imports) with acyclic units in every file; it passes resolveImports and
+   the pre-checks of flattenModel; the library dies of stack exhaustion (checks/c06.py: hand_kf_units_cycle_by_renaming). *)
+Theorem C06_flatten_terminates_refuted :
+  acyclic_imports [term_lib] term_origin (fun _ => 0) 1 /\
+  forall rounds fuel n0, flatten_model rounds fuel flat_current_fixes [term_lib] term_origin n0 = FFuel.
+Proof. split; [exact FlattenTerm.term_witness_acyclic | exact FlattenTerm.flatten_terminates_refuted]. Qed.
+Print Assumptions C06_flatten_terminates_refuted.
+
+(* NOT PROVED: flatten_terminates_partial -- termination under a hypothesis that excludes name capture (e.g. the isomorphism
+   condition of C06_units_meaning_no_capture for every transfer) with rounds = maximal import rank + 1.  It needs a measure
+   through nine fuelled functions (transfer, retrieve / flatten_units_imports, referenced_units, units_used, required_loop,
+   flatten_component_imports, has_units_imports, the two top loops) and acyclicity of every world handed to Units::equivalent;
+   not attempted beyond the statement.  C07's hang through an encapsulated child (C07-flatten-import-cycle-through-child) is
+   no longer reachable after the pre-checks on HEAD: since 0a59695 hasUnresolvedImports follows the placeholder's children and
+   flattenModel refuses that example ("The model has unresolved imports"). *)
